@@ -276,7 +276,8 @@ def cmpCore (strict : Bool) (op line : Nat) (lhs rhs : FE) : LRes (List String) 
         else lerr line "unsupported binary expr"
       else if lhs.op = fVarTypeSize then
         if isConst then strOnly lhs
-        else strBoth lhs rhs                          -- no `rhs.Op == lhs.Op` guard in this branch
+        else if !strict || rhs.op = lhs.op then strBoth lhs rhs   -- the `rhs.Op == lhs.Op` guard exists since the D17 `fix:` (strict)
+        else lerr line "unsupported binary expr"
       else lerr line "unsupported binary expr") fun _ => lok ovs
 
 /-- variables a filter expression mentions (`info.Vars`), in visiting order -/
